@@ -6,7 +6,6 @@ import (
 
 	"github.com/hashicorp/hcl/v2"
 	"github.com/hashicorp/hcl/v2/hclsyntax"
-	hcljson "github.com/hashicorp/hcl/v2/json"
 	"github.com/zclconf/go-cty/cty"
 	"hclverif/hv"
 )
@@ -23,12 +22,10 @@ func run(src string, vars map[string]cty.Value) {
 }
 
 func main() {
-	for _, t := range []string{"\"\\r'a$$${\"", "\"'a$$${\"", "\"\\ra$$${\"", "\"a\\r$$${\"", "\"\\n$$${\"", "\"\\r$${\"", "\"\\r%%%{\"", "\"\\r\\n$$${\""} {
-		e, d := hcljson.ParseExpression([]byte(t), "p.json")
-		if d.HasErrors() { fmt.Println(t, d); continue }
-		v, dd := e.Value(&hcl.EvalContext{})
-		fmt.Printf("%-20s => %#v %v\n", t, v, dd)
+	for _, t := range []string{"a\r${x}", "${x}\r${x}", "\r%{if true}y%{endif}", "\r$$${", "\rabc\n$$${", "$\rX", "a$\r${x}", "\r\r", "a\r", "\r\n${x}"} {
+		e, d := hclsyntax.ParseTemplate([]byte(t), "p.tmpl", hcl.InitialPos)
+		if d.HasErrors() { fmt.Printf("%q parse: %v\n", t, d); continue }
+		v, dd := e.Value(&hcl.EvalContext{Variables: map[string]cty.Value{"x": cty.StringVal("X")}})
+		fmt.Printf("%-28q => %#v %v\n", t, v, dd)
 	}
-	run("\"\\r$$${\"", nil)
-	run("<<EOT\n\r$$${\nEOT\n", nil)
 }
